@@ -8,6 +8,7 @@ package decimal
 
 import (
 	"encoding/binary"
+	"errors"
 	"fmt"
 )
 
@@ -72,20 +73,48 @@ func (z *Decimal) GobDecode(buf []byte) error {
 		return fmt.Errorf("Decimal.GobDecode: encoding version %d not supported", buf[0])
 	}
 
+	if len(buf) < 6 {
+		return errors.New("Decimal.GobDecode: buffer too small")
+	}
+
 	oldPrec := z.prec
 	oldMode := z.mode
 
 	b := buf[1]
-	z.mode = RoundingMode((b >> 5) & 7)
-	z.acc = Accuracy((b>>3)&3) - 1
-	z.form = form((b >> 1) & 3)
-	z.neg = b&1 != 0
-	z.prec = binary.BigEndian.Uint32(buf[2:])
-
-	if z.form == finite {
-		z.exp = int32(binary.BigEndian.Uint32(buf[6:]))
-		z.mant = z.mant.setBytes(buf[10:])
+	mode := RoundingMode((b >> 5) & 7)
+	acc := Accuracy((b>>3)&3) - 1
+	frm := form((b >> 1) & 3)
+	prec := binary.BigEndian.Uint32(buf[2:])
+	if mode > ToPositiveInf || acc > Above || frm > inf {
+		return errors.New("Decimal.GobDecode: invalid mode, accuracy or form")
 	}
+
+	if frm == finite {
+		if len(buf) < 10 {
+			return errors.New("Decimal.GobDecode: buffer too small for finite form decimal")
+		}
+		m := dec(nil).setBytes(buf[10:])
+		// a finite Decimal has a normalized mantissa made of decimal
+		// words, with no more digits than its (non-zero) precision
+		if len(m) == 0 || m[len(m)-1] < _DB/10 {
+			return errors.New("Decimal.GobDecode: mantissa is not normalized")
+		}
+		for _, w := range m {
+			if w >= _DB {
+				return errors.New("Decimal.GobDecode: invalid mantissa word")
+			}
+		}
+		if uint(len(m))*_DW-m.trailingZeroDigits() > uint(prec) {
+			return errors.New("Decimal.GobDecode: mantissa does not fit precision")
+		}
+		z.exp = int32(binary.BigEndian.Uint32(buf[6:]))
+		z.mant = m
+	}
+	z.mode = mode
+	z.acc = acc
+	z.form = frm
+	z.neg = b&1 != 0
+	z.prec = prec
 
 	if oldPrec != 0 {
 		z.mode = oldMode
